@@ -149,7 +149,7 @@ def part_graders(ctx):
         n = rng.randint(1, 6)
         fe = rng.choice([0, 0, 0, 1, 1, 2, 3, n - 1, n, n + 1, 7])
         fe = max(fe, 0)
-        tol = rng.choice([0, 0.125, 0.25, 0.5, 1, '0%', '1%', '10%', '25%', '50%'])
+        tol = rng.choice([0, 0.125, 0.25, 0.5, 1, '0%', '1%', '10%', '25%', '50%', '0.00125%', '0.00001%', '0.12344%', ' 12.5 %'])
         vars_ = ['x', 'y'][:rng.randint(1, 2)]
         draws = [{v: Fraction(rng.randint(-8, 8), rng.choice([1, 2, 4])) for v in vars_} for _ in range(n)]
         tree = poly(rng, vars_)
@@ -169,7 +169,7 @@ def part_graders(ctx):
         elif kdelta == 'rel':
             from mitxgraders.helpers.calc.mathfuncs import percentage_as_number
             r = percentage_as_number(tol) if isinstance(tol, str) else 0.125
-            stu = '(%s)*(1 + %r)' % (ans, r * rng.choice([0.5, 1, 2]))
+            stu = '(%s)*(1 + %r)' % (ans, r * rng.choice([0.5, 1, 2, 0.96, 1.04]))
         elif kdelta == 'branch':
             stu = 'abs(%s)' % ans
         elif kdelta == 'rewrite':
@@ -212,7 +212,7 @@ def part_graders(ctx):
         if len(exps) != n or len(stus) != n:
             ctx.violation('number of evaluations differs from the configured number of samples', case, impl=[len(exps), len(stus)])
         pairs = [(val_json(e[0] if isinstance(e, list) else e), val_json(s)) for e, s in zip(exps, stus)]
-        tj = tol_json(g.config['tolerance'])
+        tj = tol_json(tol)            # the tolerance the AUTHOR wrote (not the validated copy in g.config: the validator must not change its value)
         # same-sample pairing: the author's value at sample i is the formula on draw i
         if shape == 'scalar':
             for i, (pe, d) in enumerate(zip(pairs, draws)):
@@ -347,7 +347,7 @@ def replay(ctx, data):
         orig = g.gen_evaluations
         g.gen_evaluations = lambda *a, **k: (lambda out: (rec.append(out), out)[1])(orig(*a, **k))
         res = g(None, case['student'])
-        tj = tol_json(g.config['tolerance'])
+        tj = tol_json(case['tolerance'])
         pairs = [(val_json(e[0] if isinstance(e, list) else e), val_json(s)) for e, s in zip(rec[0][0], rec[0][1])]
         nfail = [oracle_within(x, y, tj)[0] for x, y in pairs].count(False)
         n = len(pairs)
